@@ -53,7 +53,8 @@ func (e EnumSchema[S, T]) ValidateCompatibility(typeOrData any) error {
 	for _, reflectKey := range validValuesMapField.MapKeys() {
 		var defaultValue T
 		defaultType := reflect.TypeOf(defaultValue)
-		if !reflectKey.CanConvert(defaultType) {
+		if reflectKey.Kind() != defaultType.Kind() || !reflectKey.CanConvert(defaultType) {
+			// Kinds must match: Go converts integers to strings as code points, which is not a value match.
 			return fmt.Errorf("invalid enum value type %s", reflectKey.Type())
 		}
 		keyToCompare := reflectKey.Convert(defaultType).Interface()
